@@ -39,6 +39,10 @@ def model_checks(res, tier):
             if r['violated']:
                 raise vlib.HarnessError('MC_SignedSearch violated: the signed-graph search model does not compute the minimum odd cycle\n' + r['out'][-3000:])
             res.add_mc('SignedSearch.tla (signed-graph reduction: all-vertices branch and hidden-edge branch under every order = minimum odd cycle; optimum attained only by simple cycles), every S', r)
+            r = vlib.tlc_ok('BiDijkstra', 'MC_BiDijkstra_q.cfg' if tier == 'quick' else 'MC_BiDijkstra_t.cfg', extra=['-coverage', '1'], timeout=6000)
+            if r['violated']:
+                raise vlib.HarnessError('MC_BiDijkstra violated: the step model of bidirectional_signed_dijkstra loses a path below the limit\n' + r['out'][-3000:])
+            res.add_mc('BiDijkstra.tla (bidirectional signed Dijkstra step by step: alternating polls, meeting test, stopping rule, limit pruning; any minimum entry polled) returns the true signed distance iff it is below the limit', r)
     finally:
         shutil.rmtree(wd, ignore_errors=True)
 
